@@ -34,11 +34,11 @@ def parseOp (t : String) : Option SOp :=
   | ["rB", v] => some (.rBool (v != "0"))
   | ["rT", h] => do some (.rText (← unhex h))
   | ["rC", h] => do some (.rChars (← unhex h))
-  | ["rK", h] => do some (.rBlock (← unhex h))
+  | ["rK", h] => do some (.rBlock (← unhex (if h == "N" then "-" else h)))      -- "N": empty data held by a NULL pointer
   | ["rKH", n] => do some (.rBlockHeader (← n.toNat?))
-  | ["rKD", h] => do some (.rBlockData (← unhex h))
+  | ["rKD", h] => do some (.rBlockData (← unhex (if h == "N" then "-" else h)))
   | ["rA", sz, fmt, h] => do
-    let sz ← sz.toNat?; let d ← unhex h
+    let sz ← sz.toNat?; let d ← unhex (if h == "N" then "-" else h)
     -- fmt 0 = NORMAL = big endian, 1 = SWAPPED = little endian; the host of the harness is little endian
     some (.rArrBin sz (hostElems d sz) (fmt != "0"))
   | ["eP", c, h] => do some (.ePush (← parseInt c) (← optHex h))
@@ -175,6 +175,18 @@ def modelParse (cfg : String) (inp : List String) : Option (List String × List 
     let (c1, e1) ← runChunks fresh a
     let (c2, e2) ← runChunks fresh b
     pure (e1 ++ finishStr c1 ++ ["||"] ++ e2 ++ finishStr c2, cmds)
+  else if mode == "PU" then
+    -- unit isolation: "u1;u2<NL>" as one message || "u1<NL>" || "u2<NL>" on a fresh context with run 2's registers and queue
+    let (a, b) := splitBar chunks
+    let u1 := a.headD "-"; let u2 := b.headD "-"
+    let hx := fun (x : String) => if x == "-" then "" else x
+    let (d1, e1) ← runChunks fresh [hx u1 ++ "3b" ++ hx u2 ++ "0a"]
+    let (d3, e3) ← runChunks fresh [hx u1 ++ "0a"]
+    let (_, q) := drainQueue d3
+    let c2 := seed fresh q d3.regs.regs
+    let c2 := { c2 with cmdError := fresh.cmdError }
+    let (d2, e2) ← runChunks c2 [hx u2 ++ "0a"]
+    pure (e1 ++ finishStr d1 ++ ["||"] ++ e3 ++ finishStr d3 ++ ["||"] ++ e2 ++ finishStr d2, cmds)
   else
     let (a, b) := splitBar chunks
     let (c1, _) ← runChunks fresh a
